@@ -33,6 +33,9 @@ imp-is-pattern $a #Pattern ( \\imp ps ph ) $.
 proof-rule-prop-1 $a |- ( \\imp ps ( \\imp ph ps ) ) $.
 proof-rule-prop-2 $a |- ( \\imp ( \\imp ps ( \\imp ph ch ) ) ( \\imp ( \\imp ps ph ) ( \\imp ps ch ) ) ) $.
 rule.refl_1 $a |- ( \\imp ps ps ) $.
+-gQ $a |- ( \\imp ph ph ) $.
+.hc $a |- ( \\imp ch ch ) $.
+_u.1 $a |- ( \\imp ps ( \\imp ps ps ) ) $.
 """
 STATEMENTS = {0: '( \\imp ph ph )', 1: '( \\imp ps ps )', 2: '( \\imp ch ( \\imp ps ch ) )', 3: '( \\imp ch ( \\imp ph ( \\imp ps ch ) ) )'}
 MAND = {0: ['ph'], 1: ['ps'], 2: ['ps', 'ch'], 3: ['ps', 'ph', 'ch']}     # database order of the $f statements (ps, ph, ch): deliberately NOT the lexicographic order (ch, ph, ps)
@@ -70,8 +73,13 @@ out = []
 for path in json.load(sys.stdin):
     try:
         c = MetamathConverter(load_database(path, include_proof=True))
+        # when the database has an earlier proof over the same variables, it is read first and must not influence the target (nor be changed by it)
+        e = c._lemmas['earlier'][0] if 'earlier' in c._lemmas else None
         l = c._lemmas['target'][0]
-        out.append({'ok': True, 'labels': [l.proof.labels[k] for k in sorted(l.proof.labels)], 'keys': sorted(l.proof.labels), 'steps': l.proof.applied_lemmas})
+        r = {'ok': True, 'labels': [l.proof.labels[k] for k in sorted(l.proof.labels)], 'keys': sorted(l.proof.labels), 'steps': l.proof.applied_lemmas}
+        if e is not None:
+            r['earlier'] = [[e.proof.labels[k] for k in sorted(e.proof.labels)], e.proof.applied_lemmas]
+        out.append(r)
     except BaseException as e:
         out.append({'ok': False, 'exc': type(e).__name__ + ': ' + str(e)[:200]})
 json.dump(out, sys.stdout)
@@ -81,7 +89,7 @@ json.dump(out, sys.stdout)
 def label_standin(root, tier, seed):
     rng = random.Random(seed)
     n = 60 if tier == 'quick' else 1500
-    label_pool = ['imp-is-pattern', 'proof-rule-prop-1', 'proof-rule-prop-2', 'rule.refl_1']
+    label_pool = ['imp-is-pattern', 'proof-rule-prop-1', 'proof-rule-prop-2', 'rule.refl_1', '-gQ', '.hc', '_u.1']
     viol, samples = [], []
     d = tempfile.mkdtemp(prefix='pi2_c15_')
     try:
@@ -106,11 +114,16 @@ def label_standin(root, tier, seed):
                 chunks.append(letters[k:k + step])
                 k += step
             body = '(' + ws() + lab_txt + (ws() if labels else '') + ')' + ws() + ws().join(chunks)
-            text = HEADER + f'target $p |- {STATEMENTS[si]} $=\n  {body} $.\n'
+            earlier = ''
+            if i % 3 == 2:
+                # one database, two compressed proofs over the same set of variables: the first one's label list is not the second one's
+                el = [rng.choice(label_pool) for _ in range(rng.randint(1, 3))]
+                earlier = f'earlier $p |- {STATEMENTS[si]} $= ( {" ".join(el)} ) {enc_number(rng.randint(1, 30))} $.\n'
+            text = HEADER + earlier + f'target $p |- {STATEMENTS[si]} $=\n  {body} $.\n'
             p = os.path.join(d, f'g{i}.mm')
             open(p, 'w').write(text)
             paths.append(p)
-            cases.append((si, labels, letters, body))
+            cases.append((si, labels, letters, body, earlier, (el if earlier else None)))
         outs = []
         for hs in ('0', '1', '7'):      # every hash seed must give the same, correct, answer
             env = dict(os.environ, PI2_ROOT=root, PYTHONHASHSEED=hs)
@@ -118,18 +131,20 @@ def label_standin(root, tier, seed):
             if pr.returncode != 0:
                 return {'undecided': [('C15/bounded/labels', 'driver failed: ' + pr.stderr[-300:])]}
             outs.append(json.loads(pr.stdout))
-        for i, (si, labels, letters, body) in enumerate(cases):
+        for i, (si, labels, letters, body, earlier, el) in enumerate(cases):
             want_labels = [f'{m}-is-pattern' for m in MAND[si]] + labels
             want_steps = ref_decode(letters)
             for hs, res in zip(('0', '1', '7'), outs):
                 got = res[i]
                 good = got['ok'] and got['labels'] == want_labels and got['keys'] == list(range(1, len(want_labels) + 1)) and got['steps'] == want_steps
+                if good and el is not None:
+                    good = got.get('earlier', [None])[0] == [f'{m}-is-pattern' for m in MAND[si]] + el
                 if len(samples) < 2 and hs == '0':
                     samples.append({'proof': body, 'labels': got.get('labels'), 'steps': got.get('steps')})
                 if not good:
                     viol.append({'name': 'C15/bounded/compressed-proof reading', 'status': 'refuted-bounded', 'backend': 'bounded differential run',
                                  'model': None, 'detail': '', 'confirmed': True,
-                                 'replay': {'database': HEADER + f'target $p |- {STATEMENTS[si]} $= {body} $.', 'PYTHONHASHSEED': hs,
+                                 'replay': {'database': HEADER + earlier + f'target $p |- {STATEMENTS[si]} $= {body} $.', 'PYTHONHASHSEED': hs,
                                             'real': got, 'expected_labels': want_labels, 'expected_steps': want_steps}})
                     break
             if viol:
